@@ -281,6 +281,27 @@ func runC19(c *core.Ctx) {
 		}
 	}
 
+	// ---- R19.4: what Bucket / Hash hand out comes from the sorted ring
+	c.Rule("R19.4", "the node returned by a ring lookup is read from the sorted ring, never from the node list as it was passed in (whose order is the caller's)", 1)
+	if bfn := c.P.Func(relCluster, "(*Continuum).Bucket"); bfn == nil {
+		c.Undecided("R19.4", "cluster.(*Continuum).Bucket#result-from-ring", "-", "anchor not found")
+	} else {
+		pv := &ssax.Prov{}
+		var bad []string
+		for _, r := range ssax.Returns(bfn) {
+			for _, s := range pv.Sources(r.Results[0]) {
+				switch {
+				case s.Kind == "const":
+				case s.Kind == "param" && len(s.Path) >= 1 && s.Path[0] == "ring":
+				default:
+					bad = append(bad, fmt.Sprintf("the result at %s comes from %s", c.P.Pos(r.Pos()), s.String()))
+				}
+			}
+		}
+		c.Check(len(bad) == 0, "R19.4", "cluster.(*Continuum).Bucket#result-from-ring", c.P.Pos(bfn.Pos()), "every result is an element of the sorted ring",
+			strings.Join(uniq(bad), "; ")+": for some hash values the chosen node depends on the order the nodes were listed")
+	}
+
 	// ---- R19.3
 	impl, ok := handlerImpl(c, relCluster)
 	if !ok {
